@@ -11,8 +11,11 @@
     relation `RSweep p mk row C nrm C' w orc tr` (Lemmas/SweepShape.lean): the same three rules as `TSweep`, each with
     the code's side conditions — QR step iff `p.qr || !mask[row]`; QR keeps `k = min(rows, cols)`, its scalar `c ≠ 0`
     is the oracle entry `Orc.qr c`; SVD has raw singular values `sig` (`sig[j] = c·σ_j`, `sig[0] = c ≠ 0`, oracle entry
-    `Orc.svd sig`) and keeps the PREFIX of length `k = min(min(rows, cols), #keptSigmas chi tol sig)` — and with the
-    oracle list `orc` and the trace `tr` as outputs.
+    `Orc.svd sig`) and keeps the PREFIX of length `k = min(min(rows, cols), #keptSigmas chi tol sig)`, where at least
+    one singular value is kept (`#keptSigmas ≠ 0`, hypothesis `hkept` of the SVD rule: since fix bea8d12 a step whose
+    tol discards EVERY normalised singular value — tol ≥ 1 — is the code's zero exit, not a step with kept rank 0; up
+    to then "kept rank ≥ 1" was implicit in the rule, the code raised IndexError there) — and with the oracle list
+    `orc` and the trace `tr` as outputs.
 
   PROVED (all chain lengths, all bond and physical dimensions, all parameters):
   * `rsweep_is_tsweep`, `rsweep_is_lsweep` — forgetting the decorations gives a `TSweep` (an `LSweep` with discarded
@@ -39,8 +42,9 @@
     converse for `rcf` / `truncate` (through the reversal) is not stated either.
   * `LSweep` / `TSweep` derivations with irrational scalars `c` have no oracle to read off (`Orc` holds rationals — the
     code's floats); `RSweep` asks `(rn : ℝ) = c`.  The shape model itself only tests `rn = 0`.
-  * zero branches: a derivation in which some scalar `c` is 0 (or `ln = 0`) has no `RSweep` — the shape model answers
-    `zeros_like` there (Props/C12.lean `zero_gives_zeros`); that `zeros_like` represents `0 • ψ` is not stated.
+  * zero branches: a derivation in which some scalar `c` is 0 (or `ln = 0`), or in which tol discards every singular
+    value of a step (kept rank 0, `tol_discards_all_gives_zeros` in Props/C12.lean), has no `RSweep` — the shape model
+    answers `zeros_like` there (Props/C12.lean `zero_gives_zeros`); that `zeros_like` represents `0 • ψ` is not stated.
   * `QRProvider` itself (existence of a thin QR factorisation of every real matrix) is a hypothesis, not proved here.
   * E, W of an MPO: `shapeOf` puts the whole physical dimension into E (`W = 1`); the model's rows `N·E·W` depend on
     `E·W` only, so an MPO with `E·W = d` has the same control flow — not stated as a theorem.
@@ -228,7 +232,7 @@ example : ∃ C' w, RSweep { chi := some 1 } (maskAt none) 0 (.cons Sweep.exD (.
   have hsig : ∀ j : Fin 2, ((([2, 1] : List ℚ).getD j 0 : ℚ) : ℝ) = 2 * exσ' j := by
     intro j; fin_cases j <;> simp [exσ']
   exact ⟨_, _, RSweep.svd 0 Sweep.exD (.cons Sweep.exB .nil) Sweep.exU exσ' 1 2 (by norm_num : 1 ≤ 2) 1 _ 0 [2, 1] []
-    [] rfl rfl hsig (by norm_num) (by norm_num) (by rfl) hfac hU (by simp) (RSweep.last 1 _)⟩
+    [] rfl rfl hsig (by norm_num) (by norm_num) (by rfl) (by decide) hfac hU (by simp) (RSweep.last 1 _)⟩
 
 example : (lcf { chi := some 1 } [some ⟨2, 1, 2, 1⟩, some ⟨2, 1, 2, 1⟩] [.svd [2, 1]]).toOption.map (·.tensors)
     = some [some ⟨2, 1, 1, 1⟩, some ⟨1, 1, 2, 1⟩] := by rfl
